@@ -23,8 +23,13 @@ pub struct DriverRig {
     /// (requests to peers, responses, kad queries): taken off the channel, kept for the harness
     pub outbox: VecDeque<NetworkSwarmCmd>,
     pub events: VecDeque<NetworkEvent>,
-    pub local_q: VecDeque<LocalSwarmCmd>,
-    pub net_q: VecDeque<NetworkSwarmCmd>,
+    /// queued commands with the causal chain ("tag") that produced them
+    pub local_q: VecDeque<(LocalSwarmCmd, String)>,
+    pub net_q: VecDeque<(NetworkSwarmCmd, String)>,
+    /// chain of the step taken last: the default schedule keeps running that chain (non-preemptive default)
+    pub last_tag: String,
+    /// order in which the driver handled reads ("R:<key>") and writes ("W:<key>") of local records
+    pub rw_log: Vec<String>,
 }
 
 #[derive(Clone, Copy, Debug, PartialEq, Eq)]
@@ -51,7 +56,7 @@ impl DriverRig {
             b.build_node(root_buf)
         });
         let (network, events_rx, driver) = res.expect("build_node");
-        let mut rig = DriverRig { driver, network, events_rx, exec, root: root.to_path_buf(), outbox: VecDeque::new(), events: VecDeque::new(), local_q: VecDeque::new(), net_q: VecDeque::new() };
+        let mut rig = DriverRig { driver, network, events_rx, exec, root: root.to_path_buf(), outbox: VecDeque::new(), events: VecDeque::new(), local_q: VecDeque::new(), net_q: VecDeque::new(), last_tag: String::new(), rw_log: vec![] };
         rig.settle();
         rig
     }
@@ -61,7 +66,7 @@ impl DriverRig {
         let kp = rigs::fixtures::ed_keypair(identity);
         let (res, _) = exec.capture(None, "startup", || NetworkBuilder::new(kp, true).build_client());
         let (network, events_rx, driver) = res.expect("build_client");
-        let mut rig = DriverRig { driver, network, events_rx, exec, root: PathBuf::new(), outbox: VecDeque::new(), events: VecDeque::new(), local_q: VecDeque::new(), net_q: VecDeque::new() };
+        let mut rig = DriverRig { driver, network, events_rx, exec, root: PathBuf::new(), outbox: VecDeque::new(), events: VecDeque::new(), local_q: VecDeque::new(), net_q: VecDeque::new(), last_tag: String::new(), rw_log: vec![] };
         rig.settle();
         rig
     }
@@ -76,6 +81,11 @@ impl DriverRig {
 
     /// Handle one local command with the real handler (spawned tasks are captured).
     pub fn handle_local(&mut self, cmd: LocalSwarmCmd) -> Result<(), String> {
+        match &cmd {
+            LocalSwarmCmd::PutLocalRecord { record } => self.rw_log.push(format!("W:{}", hexkey(&record.key))),
+            LocalSwarmCmd::GetLocalRecord { key, .. } | LocalSwarmCmd::RecordStoreHasKey { key, .. } => self.rw_log.push(format!("R:{}", hexkey(key))),
+            _ => {}
+        }
         let d = &mut self.driver;
         let (r, _) = self.exec.capture(None, "driver", || d.verif_handle_local_cmd(cmd));
         r.map_err(|e| format!("{e:?}"))
@@ -111,19 +121,33 @@ impl DriverRig {
 
     // ---- one-step-at-a-time interface for schedule exploration -------------------------------
 
-    /// Move whatever sits in the driver's channels into the rig-side FIFO queues.
-    pub fn pull(&mut self) {
+    /// Move whatever sits in the driver's channels into the rig-side FIFO queues, attributing the new
+    /// commands to the causal chain `tag` (the chain of the step that has just run).
+    pub fn pull_tagged(&mut self, tag: &str) {
         while let Some(c) = self.next_local_cmd() {
-            self.local_q.push_back(c);
+            self.local_q.push_back((c, tag.to_string()));
         }
         while let Some(c) = self.next_network_cmd() {
-            self.net_q.push_back(c);
+            self.net_q.push_back((c, tag.to_string()));
         }
         self.drain_events();
     }
+    pub fn pull(&mut self) {
+        self.pull_tagged("?");
+    }
 
-    /// What can happen next: every runnable task (one poll), the oldest queued local command,
-    /// the oldest queued network command. Order = default priority (index 0 is the default choice).
+    fn step_tag(&self, s: &Step) -> String {
+        match s {
+            Step::Poll(id) => self.exec.info(*id).tag.clone(),
+            Step::Local => self.local_q.front().map(|x| x.1.clone()).unwrap_or_default(),
+            Step::Net => self.net_q.front().map(|x| x.1.clone()).unwrap_or_default(),
+        }
+    }
+
+    /// What can happen next: every runnable task (one poll), the oldest queued local command, the
+    /// oldest queued network command. Index 0 is the default choice: steps of the causal chain that
+    /// ran last come first (the default schedule runs a chain until it blocks, like a non-preemptive
+    /// scheduler), the others follow in FIFO order.
     pub fn enabled_steps(&mut self) -> Vec<Step> {
         self.pull();
         let mut v: Vec<Step> = self.exec.runnable().into_iter().map(Step::Poll).collect();
@@ -133,7 +157,10 @@ impl DriverRig {
         if !self.net_q.is_empty() {
             v.push(Step::Net);
         }
-        v
+        let last = self.last_tag.clone();
+        let (mut same, other): (Vec<Step>, Vec<Step>) = v.into_iter().partition(|s| !last.is_empty() && self.step_tag(s) == last);
+        same.extend(other);
+        same
     }
 
     pub fn step_label(&self, s: &Step) -> String {
@@ -142,31 +169,42 @@ impl DriverRig {
                 let i = self.exec.info(*id);
                 format!("poll#{}({}/{})", id, i.func, i.tag)
             }
-            Step::Local => format!("local({})", self.local_q.front().map(|c| format!("{c:?}").chars().take(40).collect::<String>()).unwrap_or_default()),
+            Step::Local => format!("local({})", self.local_q.front().map(|c| format!("{:?}", c.0).chars().take(40).collect::<String>()).unwrap_or_default()),
             Step::Net => "net".to_string(),
         }
     }
 
     pub fn take_step(&mut self, s: Step) {
+        let tag = self.step_tag(&s);
         match s {
             Step::Poll(id) => {
                 let _ = self.exec.poll(id);
             }
             Step::Local => {
-                if let Some(c) = self.local_q.pop_front() {
+                if let Some((c, t)) = self.local_q.pop_front() {
+                    let before = self.exec.task_count();
                     let _ = self.handle_local(c);
+                    for id in before..self.exec.task_count() {
+                        self.exec.set_tag(id, &t);
+                    }
                 }
             }
             Step::Net => {
-                if let Some(c) = self.net_q.pop_front() {
+                if let Some((c, t)) = self.net_q.pop_front() {
                     if Self::is_external(&c) {
                         self.outbox.push_back(c);
                     } else {
+                        let before = self.exec.task_count();
                         let _ = self.handle_network(c);
+                        for id in before..self.exec.task_count() {
+                            self.exec.set_tag(id, &t);
+                        }
                     }
                 }
             }
         }
+        self.pull_tagged(&tag);
+        self.last_tag = tag;
     }
 
     /// Default schedule: run every runnable task FIFO, handle every queued command FIFO, until
@@ -182,12 +220,12 @@ impl DriverRig {
                 moved = true;
             }
             self.pull();
-            while let Some(c) = self.local_q.pop_front() {
+            while let Some((c, _)) = self.local_q.pop_front() {
                 let _ = self.handle_local(c);
                 moved = true;
                 self.pull();
             }
-            while let Some(c) = self.net_q.pop_front() {
+            while let Some((c, _)) = self.net_q.pop_front() {
                 if Self::is_external(&c) {
                     self.outbox.push_back(c);
                 } else {
